@@ -91,7 +91,7 @@ func c04R1(c *Ctx) {
 			for _, st := range f.FieldStores("gemmill/consensus/pbft.ConsensusState", fld.f) {
 				n++
 				e := cfgx.Expr(st.Val)
-				ok := strings.Contains(e, csT+"."+fld.def) || e == "closure:"+fld.def+"$bound"
+				ok := strings.Contains(e, csT+"."+fld.def) || strings.HasSuffix(e, "."+fld.def+"$bound")
 				c.R.Ob(rule, "hook:"+fld.f+"="+shorten(e), ok, c.Pos(st), fname(f), "cs."+fld.f+" must be bound to "+fld.def)
 			}
 		}
